@@ -8,3 +8,4 @@ open GoRedis
 #print axioms C05_list_order_preserved
 #print axioms C05_unknown_command
 #print axioms C05_case_insensitive
+#print axioms C05_source_commands_match_model
